@@ -2929,6 +2929,10 @@ def reparse_corpus():
         a = shared_request([("ParseForm", filt, None)] * 3, rq1, rid="r0")["steps"]
         b = shared_request([("Parse", filt, None)] * 3, rq2, rid="r1")["steps"]
         cases.append(finish({"mode": "seq", "steps": [a[0], b[0], a[1], b[1], b[2], a[2]], "intent": "reparse"}))
+    # as many values as GetFormValues admits, behind an empty one: every look admits them
+    rq = {"form": dobj([("ids", {"a": [ds("")] + [ds("1")] * MAX_FORM_VALUES})])}
+    cases.append(finish(shared_request([("ParseForm", filt, None), ("Parse", filt, None), ("GetFormValues", filt, None)], rq,
+                                       intent="reparse")))
     return cases
 
 
@@ -3290,17 +3294,17 @@ class C08(Property):
             # two positions of the target share one pointer: not a value of the type's value space at all
             # (writing through one position changes the other); judged like a crash
             verdict = "VPanic"
-        if obs.get("changed") and input_judged(case):
-            # the call wrote into an object of its caller (the request's form / header / URL / path variables /
-            # body, the input map or text): the next look at the same object sees values nobody supplied; judged like a crash
-            verdict = "VPanic"
+        # the call wrote into an object of its caller (the request's form / header / URL / path variables /
+        # body, the input map or text): the next look at the same object sees values nobody supplied
+        intact = not (obs.get("changed") and input_judged(case))
         vd = case.get("validator") or case.get("self_validator")
         if (case.get("entry") or "Parse") != "Parse":
             vd = None           # the request validator belongs to httpx.Parse alone
         validator = "None" if vd is None else "(Some %s)" % cbool(vd == "accept")
         tags = clist(["(%s, %s, %s)" % (cstr(raw), cstr(key), copts(o)) for raw, key, o in claims])
         forms = clist(["(%s, %s)" % (crform(f, rep), "None" if d is None else "(Some %s)" % cdoc(d)) for f, rep, d in form_claims(case)])
-        return "mkOCall %s %s %s %s %s %s" % (clist(ps), validator, cbool(bool(obs.get("called"))), verdict, tags, forms)
+        return "mkOCall %s %s %s %s %s %s %s" % (clist(ps), validator, cbool(bool(obs.get("called"))), verdict, tags, forms,
+                                                 cbool(intact))
 
     # ---- evidence -------------------------------------------------------------------
     @staticmethod
